@@ -394,8 +394,58 @@ class Inliner:
                 if not new.body:
                     new.body = [ast.copy_location(ast.Pass(), s)]
                 return stmts[:i] + [new]
-            raise Unsupported("return inside a loop / with / try")
+            if isinstance(s, (ast.For, ast.While)) and not s.orelse and not self._own_level(s.body, (ast.Break,)) and \
+                    not self._returns_in_inner_loops(s.body):
+                # for ..: .. return E ..; REST   ==   for ..: .. <res = E>; break ..  else: REST   (the else clause of a loop
+                # runs exactly when the loop was not left by break)
+                rest = stmts[i + 1:]
+                new = copy.copy(s)
+                new.body = self._returns_to_break(list(s.body), make)
+                new.orelse = self._tail(rest, make) or []
+                return stmts[:i] + [new]
+            raise Unsupported("return inside a with / try / nested loop")
         return stmts
+
+    @staticmethod
+    def _own_level(stmts, kinds) -> bool:
+        for x in stmts:
+            if isinstance(x, kinds):
+                return True
+            if isinstance(x, (ast.For, ast.AsyncFor, ast.While)):
+                if Inliner._own_level(x.orelse, kinds):
+                    return True
+                continue
+            if isinstance(x, (ast.FunctionDef, ast.AsyncFunctionDef, ast.ClassDef)):
+                continue
+            for _, lst in _stmt_lists(x):
+                if Inliner._own_level(lst, kinds):
+                    return True
+        return False
+
+    @staticmethod
+    def _returns_in_inner_loops(stmts) -> bool:
+        for x in stmts:
+            if isinstance(x, (ast.For, ast.AsyncFor, ast.While, ast.With, ast.AsyncWith, ast.Try)) and _contains(x, ast.Return):
+                return True
+            if isinstance(x, ast.If) and (Inliner._returns_in_inner_loops(x.body) or Inliner._returns_in_inner_loops(x.orelse)):
+                return True
+        return False
+
+    def _returns_to_break(self, stmts, make):
+        out = []
+        for x in stmts:
+            if isinstance(x, ast.Return):
+                r = make(x)
+                out += (r if isinstance(r, list) else [r]) + [ast.copy_location(ast.Break(), x)]
+                return out
+            if isinstance(x, ast.If) and _contains(x, ast.Return):
+                y = copy.copy(x)
+                y.body = self._returns_to_break(list(x.body), make) or [ast.copy_location(ast.Pass(), x)]
+                y.orelse = self._returns_to_break(list(x.orelse), make)
+                out.append(y)
+                continue
+            out.append(x)
+        return out
 
     @staticmethod
     def _fold(stmts: List[ast.stmt], var: str, boolean: bool) -> List[ast.stmt]:
